@@ -18,7 +18,8 @@ from fv.report import Report
 
 ATOM_TEXT = {"a": "a", "b": "b", "c": "c", "d": "d", "F": "f(x, 2)", "H": "np.log(z)", "Q": "`q q`", "g": "g", "h": "h", "k": "k",
              # calls that differ from F only in one place (argument value, keyword value, keyword name, callee)
-             "K": "f(x, k=2)", "L": "f(x, k=3)", "M": "f(x, j=2)", "N": "f(x, 3)", "O": "f2(x, 2)", "P": "f(z, 2)"}
+             "K": "f(x, k=2)", "L": "f(x, k=3)", "M": "f(x, j=2)", "N": "f(x, 3)", "O": "f2(x, 2)", "P": "f(z, 2)",
+             "R": "f(np.abs(x), 2)", "S": "f(x + 1, 2)"}
 TEXT_ATOM = {v: k for k, v in ATOM_TEXT.items()}
 TEXT_ATOM["q q"] = "Q"
 PREC = {"+": 4, "-": 4, "*": 5, "/": 5, ":": 6}
@@ -216,7 +217,7 @@ def gen_rhs(rng, depth):
 
 
 def _gen_rhs(rng, depth):
-    atoms = ["a", "b", "c", "d", "F", "H", "Q"] + rng.sample(["K", "L", "M", "N", "O", "P"], 2)
+    atoms = ["a", "b", "c", "d", "F", "H", "Q"] + rng.sample(["K", "L", "M", "N", "O", "P", "R", "S"], 2)
     n = rng.randint(1, 5)
     f = ["one"]
     first = True
@@ -329,12 +330,12 @@ def main(tier, seed):
     ]
     if tier == "quick":
         mc_and_replay(rep, ["a", "b", "F"], 4)
-        mc_and_replay(rep, ["F", "K", "L", "N"], 3)   # calls that differ in one argument only
+        mc_and_replay(rep, ["F", "K", "N", "R"], 3)   # calls that differ in one argument only (value, keyword, nested call)
         traces(rep, 3000, 5, seed)
     else:
         mc_and_replay(rep, ["a", "b", "c", "F"], 4)
         mc_and_replay(rep, ["a", "F"], 5, timeout=6000)
-        mc_and_replay(rep, ["F", "K", "L", "M", "N", "O", "P"], 3)
+        mc_and_replay(rep, ["F", "K", "L", "M", "N", "O", "P", "R", "S"], 3)
         traces(rep, 60000, 7, seed)
     rep.exhaustive = True
     return rep.finish()
